@@ -59,6 +59,17 @@ def node_rows_go_to_node_file(ctx, r, rid):
                     "reported as newly completed to exactly one submitter round")
     if n < 2:
         raise AnalysisError(rid, f"only {n} ResultsAggregator.append call sites found (expected the completion and the cancel site)")
+    # inside append(): the consolidated file is chosen only for `batch_id is None` - never by truthiness (batch 0, "0")
+    for nd in ctx.cfg(ap).nodes:
+        if nd.kind == "stmt" and isinstance(nd.ast, (ast.Assign, ast.Expr, ast.Return)):
+            for c in [x for x in ast.walk(nd.ast) if isinstance(x, ast.Call)]:
+                s9 = ctx.cg.site_of(ap, c)
+                if s9 is not None and s9.calls_short(ctx.ix, f"{RA}.load") and not s9.calls_short(ctx.ix, f"{RA}.load_node_results"):
+                    forms = {(f.replace(" ", ""), p) for f, p in guard_forms(ctx, ap, nd)}
+                    okn = ("batch_idisNone", True) in forms and all("batch_id" not in f or f == "batch_idisNone" for f, p in forms)
+                    r.check(okn, "append() writes to the consolidated file only when no batch id was given (`is None`)", key_of(ap, "consolidated target chosen by truthiness"), ap.loc(c),
+                            f"ResultsAggregator.append picks the consolidated file under {sorted(forms)}: a falsy batch id (batch 0 parsed as an int, an empty string) sends a node's rows straight into "
+                            "processed_results.csv - the collector reports only rows it moved out of a node file, so those results are reported to no round", "reported as newly completed to exactly one submitter round")
     # the flag itself: stored from the constructor argument, which every construction site computes by *calling* the interface's am_i_manager()
     from ..lib import attr_stores, inlined_expr
 
@@ -446,6 +457,10 @@ def c08_8(ctx, r):
     if not (isinstance(la, ast.Attribute) and isinstance(la.value, ast.Name) and la.value.id == wr.params[0]):
         raise AnalysisError("C08.8", f"lock path `{ctx.src(la)}` is not an attribute of the aggregator")
     r.ok(f"lock wrapper locks self.{la.attr}")
+    extra = sorted(k.arg or "**" for k in ctor[0].keywords if k.arg not in ("timeout",))
+    r.check(not extra and len(ctor[0].args) == 1, "the lock is built with a timeout only (it cannot expire while held)", key_of(wr, f"results lock options {extra}"), wr.loc(ctor[0]),
+            f"the results lock is constructed with {extra}: with a lifetime (or a non-blocking / singleton option) a waiter may break the marker and enter while the holder is still between reading and deleting "
+            "a node file - a row appended in that window is deleted with the file", "regardless of how result writes interleave with collection. No row is lost")
     fparam = init.params[1]
     stores = [n for n in iter_own(init.node) if isinstance(n, ast.Assign) and any(isinstance(t, ast.Attribute) and t.attr == la.attr and isinstance(t.value, ast.Name) and t.value.id == init.params[0] for t in n.targets)]
     others = [f.short for f in ctx.cls(RA, "C08.8").methods.values() if f is not init for n in iter_own(f.node) if isinstance(n, (ast.Assign, ast.AugAssign))
@@ -465,3 +480,10 @@ def c08_8(ctx, r):
             f"the lock path `{ctx.src(val)}` is built from the file *name* only: it is relative to the working directory of whichever process builds it, so a job runner and the collector "
             "started from different directories (compute node vs. login node, or a recovery round run by hand) lock different files and no longer exclude each other - a row appended during "
             "read-append-delete is deleted with the node file", "regardless of how result writes interleave with collection. No row is lost")
+
+
+@rule(P, "C08.9", "T3+T6", "every collected row is reported: the names handed to the round are the names of all rows moved (canceled rows included)", min_obligations=5)
+def c08_9(ctx, r):
+    from .c02 import c02_12
+
+    c02_12(ctx, r)
